@@ -47,7 +47,8 @@ class C10(Oracle):
             return v
         ch = pcs.obj
         if pcs.in_eom:
-            J = 2 * ch.eom_config.rise_time
+            # "the channel's phase-jump time ... (twice the EOM rise time at least, in EOM mode)"
+            J = max(ch.phase_jump_time, 2 * ch.eom_config.rise_time)
         else:
             J = ch.phase_jump_time
         need = J + fall_time(p1, pcs, slot_in_eom(p1, pcs))
